@@ -118,6 +118,9 @@ def run(cx):
     r5(cx)
     cx.rule("C12.R6", "K4", "what the loaders restore is kept current in the store: every task / process column they consume is written by the UPDATE of that collection, not only by the INSERT made when the row was first pushed (before hooks, data or state existed)")
     r6(cx)
+    cx.rule("C12.R7", "K3", "a reload loses nothing: every cell of the live Task / Process that can change while the process runs is part of the stored row (shared with C11.R4)")
+    from rules.c11 import r4_no_memory_only_cells
+    r4_no_memory_only_cells(cx, "C12.R7")
 
 
 def r6(cx, rule="C12.R6", only=None, floor=12):
